@@ -298,10 +298,15 @@ def run_op(op, attrs, env, fault, res, sigint=False):
         s.want_park = True
         main_id = threading.main_thread().ident
 
+        armed = [True]
+        kill_lock = threading.Lock()
+
         def kill():
             if s.parked.wait(2.0):
                 time.sleep(0.003)
-                signal.pthread_kill(main_id, signal.SIGINT)
+                with kill_lock:
+                    if armed[0]:  # never after the operation has returned
+                        signal.pthread_kill(main_id, signal.SIGINT)
 
         killer = threading.Thread(target=kill, daemon=True)
         killer.start()
@@ -317,7 +322,16 @@ def run_op(op, attrs, env, fault, res, sigint=False):
     except Exception as e:
         outcome = type(e).__name__
     if killer:
-        killer.join(3.0)
+        # a signal sent just before the operation returned may still be delivered here
+        for _ in range(3):
+            try:
+                with kill_lock:
+                    armed[0] = False
+                killer.join(3.0)
+                time.sleep(0.005)
+                break
+            except KeyboardInterrupt:
+                res.count("SIGINT delivered after the operation had returned (ignored)")
     after = termios.tcgetattr(env.slave)
     res.count("attribute comparisons")
     env.capturing = True
